@@ -18,6 +18,10 @@ E = A.ExtractError
 FUNC_KINDS = ('CXXMethodDecl', 'FunctionDecl', 'CXXConstructorDecl', 'CXXDestructorDecl')
 
 
+# generate() returns Dispatch.lean followed, after a line starting with SPLIT + <relative path>, by further generated modules
+SPLIT = '-- ==== generated file: '
+
+
 def norm(s):
     return re.sub(r'\s+', '', s)
 
@@ -492,11 +496,16 @@ def generate(repo, cfg_include, workdir):
     if sorted(steps) != sorted(names) or steps[-1] != 'ret' or steps.index('saveCaller') > steps.index('releaseCaller'):
         raise E('Core::Done: statements changed: %s' % [ntext(s_)[:60] for s_ in st])
     L += ['/-! Core::Done -/', 'def doneDecRef (t : Nat) (kAsync async : Bool) : Bool :=', '  ' + e_dec,
-          'def doneDestroysFunctor (async : Bool) : Bool := %s' % e_fun,
-          '/-- the statements of `Core::Done` in source order -/',
+          'def doneDestroysFunctor (async : Bool) : Bool := %s' % e_fun, '']
+    # a module of its own (only Props/C03 imports it): a change of the order does not rebuild the pipeline proofs
+    L2 = [SPLIT + 'YaclibModel/Extracted/DoneOrder.lean',
+          '/- GENERATED by vlib/x_dispatch.py from /repo on every check run. Do not edit.',
+          '   The statements of yaclib::detail::Core::Done (core.hpp) in source order. -/',
+          'namespace Yaclib.Extracted.DoneOrder', '',
           'inductive DoneStep | saveCaller | store | releaseCaller | destroyFunctor | publish | ret',
-          'deriving DecidableEq, Repr',
-          'def doneSteps : List DoneStep := [%s]' % ', '.join('.' + x for x in steps), '']
+          'deriving DecidableEq, Repr', '',
+          'def doneSteps : List DoneStep := [%s]' % ', '.join('.' + x for x in steps), '',
+          'end Yaclib.Extracted.DoneOrder', '']
 
     # Impl
     f = one_func(core, 'Impl', 'detail/core.hpp')
@@ -692,4 +701,4 @@ def generate(repo, cfg_include, workdir):
         raise E('detail::SetCallback: `From` changed: %s' % sorted(texts))
     L += ['def setCallbackFromUnique : Nat := ctFromUnique', 'def setCallbackFromShared : Nat := ctFromShared', '',
           'end Yaclib.Extracted.Dispatch', '']
-    return '\n'.join(L)
+    return '\n'.join(L) + '\n' + '\n'.join(L2)
